@@ -284,6 +284,9 @@ type gen struct {
 	useInt bool
 	now    time.Time
 	nkey   int
+	// forceN: the length of every typed slice this generator makes (SliceProgs); otherwise n() draws it
+	forced bool
+	forceN int
 }
 
 var keyPool = []string{"a", "k", "key", "", "é", "with space", "q\"uote", strings.Repeat("k", 23), strings.Repeat("k", 24), strings.Repeat("L", 256), "level", "message", "time", "a"}
@@ -367,7 +370,12 @@ func (g *gen) dur() time.Duration {
 	g.tb.addDur(d, g.unit)
 	return d
 }
-func (g *gen) n() int { return []int{0, 1, 2, 3, 23, 24, 25, 5}[g.r.Intn(8)] }
+func (g *gen) n() int {
+	if g.forced {
+		return g.forceN
+	}
+	return []int{0, 1, 2, 3, 23, 24, 25, 5}[g.r.Intn(8)]
+}
 
 func pString(s string) val { return vp("PString "+cbs([]byte(s)), cborref.Tx(s)) }
 func pInt(v int64) val     { return vp("PInt "+cz(v), cborref.Int(v)) }
